@@ -23,6 +23,9 @@ type LossCase struct {
 	Up   prog.Program `json:"up"`
 	T    prog.F64s    `json:"t"` // targets, same shape as the prediction
 	TTr  bool         `json:"t_tracked,omitempty"`
+	// Same (C12): the prediction tensor object is passed as the target as well (T repeats the
+	// prediction values)
+	Same bool `json:"same,omitempty"`
 }
 
 func init() {
@@ -135,7 +138,11 @@ func genC12(t *rapid.T) LossCase {
 	s := lossShape(t, kind)
 	p, _ := drawProb(t, ref.Prod(s), "p", true)
 	tg, _ := drawProb(t, ref.Prod(s), "t", true)
-	return LossCase{Kind: kind, Up: prog.Program{Leaves: []prog.Leaf{{Shape: s, Vals: p, Tracked: rapid.Bool().Draw(t, "ptracked")}}}, T: tg, TTr: rapid.Bool().Draw(t, "ttracked")}
+	same := rapid.IntRange(0, 7).Draw(t, "sameobject") == 0
+	if same {
+		tg = append([]float64{}, p...)
+	}
+	return LossCase{Kind: kind, Up: prog.Program{Leaves: []prog.Leaf{{Shape: s, Vals: p, Tracked: rapid.Bool().Draw(t, "ptracked")}}}, T: tg, TTr: rapid.Bool().Draw(t, "ttracked"), Same: same}
 }
 
 func checkC12(c LossCase) *Failure {
@@ -145,6 +152,9 @@ func checkC12(c LossCase) *Failure {
 	pl := c.Up.Leaves[0]
 	if len(c.T) != len(pl.Vals) || len(pl.Vals) != ref.Prod(pl.Shape) {
 		return nil
+	}
+	if c.Same {
+		c.T = append(prog.F64s{}, pl.Vals...)
 	}
 	want, _ := refLoss(nil, c.Kind, ref.FromVals(pl.Shape, pl.Vals), ref.FromVals(pl.Shape, c.T))
 	// scale: the same formula on term magnitudes (|log| of clipped values are <= 27.7)
@@ -183,6 +193,9 @@ func checkC12(c LossCase) *Failure {
 	for vi, tr := range [][2]bool{{pl.Tracked, c.TTr}, {false, false}, {true, true}} {
 		p := lib.MustNew(pl.Shape, pl.Vals, tr[0])
 		tg := lib.MustNew(pl.Shape, c.T, tr[1])
+		if c.Same {
+			tg = p
+		}
 		if vi == 0 {
 			// rejected calls that already involve the tensors of the valid call that follows
 			if f := rejectedLossCalls(c.Kind, compute, p, tg); f != nil {
@@ -230,6 +243,9 @@ func checkC12(c LossCase) *Failure {
 	}
 	if near {
 		evid.Class("C12.within_1e-12_of_a_bound")
+	}
+	if c.Same {
+		evid.Class("C12.one_tensor_object_as_prediction_and_target")
 	}
 	if clipped && interior {
 		evid.Class("C12.clipped_and_interior_mixed")
